@@ -316,6 +316,7 @@ CHECKS["C05"] = {
     "nontrivial_floor": 1000,
     "units": [
         {"name": "streamed-late-set", "run": "^TestC05Streamed$", "kind": "rapid", "checks": {"quick": 1500, "thorough": 40000}, "shards": {"quick": 2, "thorough": 16}},
+        {"name": "trailer-late-set", "run": "^TestC05TrailerLate$", "kind": "rapid", "checks": {"quick": 400, "thorough": 8000}, "shards": {"quick": 2, "thorough": 16}},
         {"name": "selftest", "run": "^TestC05SelfTest$", "kind": "plain"},
         {"name": "exhaustive", "run": "^TestC05Exhaustive$", "kind": "plain", "shards": 8},
         {"name": "random", "run": "^TestC05Random$", "kind": "rapid", "checks": {"quick": 40000, "thorough": 800000}, "shards": {"quick": 4, "thorough": 16}},
